@@ -198,3 +198,46 @@ func VerifH_KeyLockMulti() {
 	symx.Assert(lk.entries() == 0, "no per-key state left")
 	symx.Reach("end")
 }
+
+// C02/H3: lock order of the sharded generic locker. For a duplicate-free ascending key list the
+// per-key locks are taken shard by shard in increasing shard order and, inside a shard, in the caller's
+// order - one global order for every caller, which is what makes overlapping multi-key calls deadlock
+// free. Lists longer than 12 keys matter: sorting routines switch algorithm there.
+func VerifH_KeyLockGroupOrder() {
+	symx.MapOrderAll()
+	p := symx.Param("shards", 3)
+	g := NewTKeyLockeGrp[int](remap.WithPrime(uint64(p))).(*TKeyLockerGrp[int])
+	n := symx.Param("listLen", 13)
+	stride := symx.Param("stride", 3)
+	base := symx.Concrete(symx.Int("base"), 0, 2)
+	keys := make([]int, n)
+	for i := range keys {
+		keys[i] = base + i*stride + (i%2)*symx.Param("jitter", 0)
+	}
+	ms := g.calculateSortedMultiKeys(keys)
+	total := 0
+	lastShard := -1
+	for _, m := range ms {
+		symx.Assert(m.index > lastShard && m.index < p, "shards visited in strictly increasing order")
+		lastShard = m.index
+		prev := -1 << 62
+		for _, k := range m.ks {
+			symx.Assert(k%p == m.index, "key grouped under its own shard")
+			symx.Assert(k > prev, "inside a shard the caller's (global) key order is kept")
+			prev = k
+			total++
+		}
+	}
+	symx.Assert(total == n, "every listed key is locked exactly once")
+	// and the whole call works end to end
+	g.Locks(keys)
+	g.Unlocks(keys)
+	g.RLocks(keys)
+	g.RUnlocks(keys)
+	n2 := 0
+	for _, l := range g.ls {
+		n2 += len(l.lockMap)
+	}
+	symx.Assert(n2 == 0, "no per-key state left")
+	symx.Reach("end")
+}
